@@ -16,7 +16,7 @@ RULE = ('(base module, variant) pairs; evaluation = one variant translated and c
         'distinct = distinct (base hash, variant kind, variant bytes hash); non-trivial = variant bytes differ from the base bytes')
 
 PADDABLE = {'secsize', 'count', 'idx', 'funcidx', 'typeidx', 'label', 'align', 'offset', 'i32.const', 'i64.const', 'localcount',
-            'limit', 'namelen', 'bodysize', 'memidx'}
+            'limit', 'namelen', 'bodysize', 'memidx', 'subop', 'tableidx'}
 
 
 def pad_enc(rnd, mode):
@@ -131,6 +131,20 @@ def main(chk):
     for k in range(10 if quick else 80):
         c = gen.build_program_module(env.rng('c08-gen', k), gen.Profile(), n_funcs=8)
         bases.append(('gen%d' % k, c.mod.encode(), ('gen', c, k)))
+    # bases that contain every prefixed (0xFC / 0xFE) instruction: all atomic flavours, saturating conversions, bulk memory
+    from checks import c16 as _c16
+    am, _ = _c16.build_module(False)
+    bases.append(('atomics-all-flavours', am.encode(), None))
+    pm = Module()
+    pm.mems.append((1, 2, False))
+    pm.datas.append(dict(mode='passive', bytes=b'passive-bytes'))
+    for ti, (src, dst) in enumerate([(F32, I32), (F64, I32), (F32, I64), (F64, I64)]):
+        for sg in 'su':
+            pm.add_func([src], [dst], [], [('local.get', 0), ('%s.trunc_sat_%s_%s' % (dst, src, sg),)], export='sat%d%s' % (ti, sg))
+    pm.add_func([I32, I32, I32], [], [], [('local.get', 0), ('local.get', 1), ('local.get', 2), ('memory.copy',)], export='copy')
+    pm.add_func([I32, I32, I32], [], [], [('local.get', 0), ('local.get', 1), ('local.get', 2), ('memory.fill',)], export='fill')
+    pm.add_func([I32, I32, I32], [], [], [('local.get', 0), ('local.get', 1), ('local.get', 2), ('memory.init', 0)], export='init')
+    bases.append(('prefixed-misc', pm.encode(), None))
     nvar = 7 if quick else 16
     root = env.subdir('c08')
 
